@@ -5,9 +5,26 @@
    and the frame with the reference (props/c11.py). *)
 From Coq Require Import List String NArith ZArith Bool.
 From PDT Require Import Base.StableSort Model.Dtype Model.Value Model.Ops Model.Expr Model.RefSem
-     Proofs.RefLemmas Proofs.AggLemmas Proofs.JoinUnionLemmas.
+     Model.Typing Model.Cache Proofs.RefLemmas Proofs.AggLemmas Proofs.JoinUnionLemmas Proofs.CacheLemmas.
 Import ListNotations.
 Open Scope list_scope.
+
+(* MAIN THEOREM.  For every well-formed resolved AST (any verbs, any expressions) and ALL data: the
+   names that the metadata model reports (Model/Cache.v = transcription of Cache.update/from_ast,
+   tied to the real Cache by the L2 correspondence) are, in names, order and count, the header of the
+   reference result.  [wf] collects what the verb front end establishes (join names made disjoint
+   by suffixing, grouping columns visible, distinct new names); it is evaluated on every sampled
+   case and the share of cases satisfying it is reported in the evidence. *)
+Theorem metadata_names_are_export_header : forall sch d a c,
+  wf sch a = true -> cache_of_ast sch a = TOk c ->
+  map fst (name_to_uuid c) = f_names (export_ref (sem_ref d a))
+  /\ List.length (name_to_uuid c) = List.length (f_names (export_ref (sem_ref d a)))
+  /\ partition_by c = group (sem_ref d a).
+Proof.
+  intros sch d a c W H. destruct (cache_agrees_with_reference sch d a c W H) as [En Ep].
+  unfold export_ref. cbn [f_names]. rewrite En, map_length. repeat split. exact Ep.
+Qed.
+Print Assumptions metadata_names_are_export_header.
 
 (* the exported header is exactly the visible-name list, in its order, and every exported row has
    one cell per name *)
